@@ -6,6 +6,7 @@ import dets
 import gen
 from common import Outcome, close, rng_for
 
+RULE_ADDENDA = ('magnitudes 1e-16 ... 1e12 with tolerances that follow the scale of the data; streams of 4 300-9 000 updates')
 LEVEL = "proof"
 SHRINK_KEYS = ("stream",)
 EXPLANATION = ("Theorems (Lean, reals): model = non-incremental recurrence for all three kinds, shift invariance, lambda monotonicity, "
